@@ -363,6 +363,21 @@ impl ArrayImpl {
     /// Perform binary operation.
     pub fn binary_op(&self, op: &BinaryOperator, other: &ArrayImpl) -> Result {
         use BinaryOperator::*;
+        // An operand of type NULL (the literal `null`) has no kernels of its own. AND and OR
+        // take it as a boolean NULL, the result of the other operators is NULL.
+        if matches!(self, Self::Null(_)) || matches!(other, Self::Null(_)) {
+            let ty = match op {
+                And | Or => {
+                    let (a, b) = (self.cast(&DataType::Bool)?, other.cast(&DataType::Bool)?);
+                    return a.binary_op(op, &b);
+                }
+                Plus | Minus | Multiply | Divide | Modulo => DataType::Null,
+                _ => DataType::Bool,
+            };
+            let mut builder = ArrayBuilderImpl::with_capacity(self.len(), &ty);
+            builder.push_n(self.len(), &DataValue::Null);
+            return Ok(builder.finish());
+        }
         match op {
             Plus => self.add(other),
             Minus => self.sub(other),
